@@ -217,6 +217,11 @@ func readSource() (sc srcConsts) {
 	}
 	// ---- package arp_spoofer
 	_, hfiles := parseDirFiles(filepath.Join(repoDir(), "handlers", "arp_spoofer"))
+	for k, v := range constTable(hfiles) { // named constants of the handler package (e.g. a named ticker period)
+		if _, dup := names[k]; !dup {
+			names[k] = v
+		}
+	}
 	sc.tickerMs, sc.opRequestRaw, sc.opRep = -1, -1, -1
 	for _, f := range hfiles {
 		for _, d := range f.Decls {
@@ -227,6 +232,33 @@ func readSource() (sc srcConsts) {
 			var ticker ast.Expr
 			announces := false
 			var encOp ast.Expr
+			locals := map[string]ast.Expr{} // x := <expr> / var x = <expr> inside this function
+			ast.Inspect(fd.Body, func(n ast.Node) bool {
+				if as, ok := n.(*ast.AssignStmt); ok && len(as.Lhs) == len(as.Rhs) {
+					for i, l := range as.Lhs {
+						if id, ok := l.(*ast.Ident); ok {
+							locals[id.Name] = as.Rhs[i]
+						}
+					}
+				}
+				if vs, ok := n.(*ast.ValueSpec); ok {
+					for i, id := range vs.Names {
+						if i < len(vs.Values) {
+							locals[id.Name] = vs.Values[i]
+						}
+					}
+				}
+				return true
+			})
+			withLocals := map[string]ast.Expr{}
+			for k, v := range names {
+				withLocals[k] = v
+			}
+			for k, v := range locals {
+				if _, dup := withLocals[k]; !dup {
+					withLocals[k] = v
+				}
+			}
 			ast.Inspect(fd.Body, func(n ast.Node) bool {
 				call, ok := n.(*ast.CallExpr)
 				if !ok {
@@ -246,12 +278,12 @@ func readSource() (sc srcConsts) {
 				return true
 			})
 			if ticker != nil && announces {
-				if v, ok := evalInt(ticker, names); ok {
+				if v, ok := evalInt(ticker, withLocals); ok {
 					sc.tickerMs = v
 				}
 			}
 			if encOp != nil {
-				if v, ok := evalInt(encOp, names); ok {
+				if v, ok := evalInt(encOp, withLocals); ok {
 					switch fd.Name.Name {
 					case "RequestRaw":
 						sc.opRequestRaw = v
